@@ -54,7 +54,9 @@ CONSTANTS
   Weak_SearchStopsEarly,  \* SearchForEndHeight looks at the head file only
   Weak_RotateDropsBuf,    \* RotateFile resets the buffer instead of flushing it
   Weak_DecoderAcceptsBadCRC, \* WALDecoder does not compare checksums
-  Weak_PruneNewest        \* checkTotalSizeLimit removes the newest rotated file instead of the oldest
+  Weak_PruneNewest,       \* checkTotalSizeLimit removes the newest rotated file instead of the oldest
+  Weak_IndexWidth3Only,   \* readGroupInfo recognises only names with exactly three digits (<head>.NNN)
+  WidthLimit              \* first index whose name is wider than three digits: 1000 (filePathForIndex uses %03d, a MINIMUM width)
 
 MaxFilesToRemove == 4   \* group.go
 HdrCrc == 4
@@ -125,9 +127,17 @@ TouchRange(d, lo, hi) ==     \* create empty files for the missing indices lo..h
                   lo + 1, hi)
 Touch(w, lo) == [w EXCEPT !.disk = TouchRange(w.disk, lo, w.gmax)]
 
-\* Group.readGroupInfo: scans the directory
+(* Group.readGroupInfo: scans the directory.  Rotated files are recognised by NAME:
+   filePathForIndex writes "%v.%03d" (at least three digits: <head>.000 .. <head>.999, <head>.1000, ...)
+   and readGroupInfo parses the index back with ^.+\.([0-9]{3,})$.  Both sides must agree for
+   every index a long history reaches; Weak_IndexWidth3Only is the disagreement "exactly three
+   digits": files with index >= WidthLimit exist but are invisible to a Group opened later
+   (MinIndex/MaxIndex too small: markers in them are not searched, the next RotateFile renames
+   the head over an existing file).  Every file whose name starts with the head's name counts
+   for the total size, recognised or not.                                                   *)
+VisibleIdxs(w) == IF Weak_IndexWidth3Only THEN {i \in Idxs(w) : i < WidthLimit} ELSE Idxs(w)
 GInfo(w) ==
-  LET I == Idxs(w) IN
+  LET I == VisibleIdxs(w) IN
   [min   |-> IF I = {} THEN 0 ELSE WMin(I),
    max   |-> IF I = {} THEN 0 ELSE WMax(I) + 1,
    total |-> SumSize([k \in 1..Len(w.disk) |-> [size |-> SumSize(w.disk[k].items)]])
@@ -285,7 +295,7 @@ RepairHead(w) ==
    WriteSync'ed.  v0.34.24 as found writes it whenever the HEAD FILE is empty, i.e. also after a
    rotation followed by a restart; catch-up of the initial height then finds this newest
    #ENDHEIGHT 0 and replays nothing of what the rotated files hold (Weak_EH0OnEmptyHead).    *)
-WroteEH0(w) == HeadFileSize(w) = 0 /\ (Weak_EH0OnEmptyHead \/ Idxs(w) = {})
+WroteEH0(w) == HeadFileSize(w) = 0 /\ (Weak_EH0OnEmptyHead \/ GInfo(w).max = 0)   \* wal.group.MaxIndex() == 0
 OpenWal(w, eh0) ==
   LET gi == GInfo(w)
       w1 == [w EXCEPT !.gmin = gi.min, !.gmax = gi.max, !.open = TRUE, !.buf = << >>, !.part = 0]
